@@ -68,6 +68,7 @@ struct Stats {
     cfgs_with_token: HashSet<u64>,
     violations: Vec<Value>,
     n_violations: u64,
+    op_counts: HashMap<String, u64>,
     samples: Vec<Value>,
     // ambiguous groups: key -> (matched, first mismatch report)
     groups: HashMap<String, (bool, Option<Value>)>,
@@ -229,6 +230,11 @@ pub fn main(args: &[String]) -> i32 {
                 let (calls, saw, bad) = if isolate { run_isolated(&tables_path, &js) } else { run_behaviour(tables, hist) };
                 local.behaviours += 1;
                 local.calls += calls;
+                for e in hist.iter() {
+                    if let Some(op) = e["op"].as_str() {
+                        *local.op_counts.entry(op.to_string()).or_default() += 1;
+                    }
+                }
                 if saw {
                     local.with_token += 1;
                     if let Some(ci) = hist[0]["cfg"].as_u64() {
@@ -265,6 +271,9 @@ pub fn main(args: &[String]) -> i32 {
             g.with_token += local.with_token;
             g.ambiguous += local.ambiguous;
             g.n_violations += local.n_violations;
+            for (k, v) in local.op_counts {
+                *g.op_counts.entry(k).or_default() += v;
+            }
             g.cfgs_with_token.extend(local.cfgs_with_token);
             for v in local.violations {
                 if g.violations.len() < 50 {
@@ -330,6 +339,7 @@ pub fn main(args: &[String]) -> i32 {
         "behaviours": g.behaviours, "calls": g.calls, "behaviours_with_token": g.with_token,
         "ambiguous_behaviours": g.ambiguous, "ambiguous_groups": n_groups,
         "configurations_with_token": g.cfgs_with_token.len(),
+        "op_counts": g.op_counts,
         "violations": g.n_violations, "harness_errors": crate::HARNESS_ERRORS.load(std::sync::atomic::Ordering::SeqCst), "violation_files": files, "samples": g.samples,
         "tlc_tail": other_lines.iter().rev().take(40).rev().collect::<Vec<_>>(),
     });
